@@ -39,7 +39,7 @@ func (*c14) ID() string                     { return "C14" }
 func (*c14) Level() string                  { return "exploration" }
 func (*c14) Decode(raw []byte) (any, error) { return decodeInto[C14Scenario](raw) }
 
-var c14Mechs = []string{"PLAIN", "LOGIN", "CRAM-MD5", "XOAUTH2", "SCRAM-SHA-1", "SCRAM-SHA-256", "SCRAM-SHA-1-PLUS", "SCRAM-SHA-256-PLUS", "PLAIN-NOENC", "LOGIN-NOENC", "AUTODISCOVER", "CUSTOM-SCRAM-SHA-256", "CUSTOM-SCRAM-SHA-1"}
+var c14Mechs = []string{"PLAIN", "LOGIN", "CRAM-MD5", "XOAUTH2", "SCRAM-SHA-1", "SCRAM-SHA-256", "SCRAM-SHA-1-PLUS", "SCRAM-SHA-256-PLUS", "PLAIN-NOENC", "LOGIN-NOENC", "AUTODISCOVER", "CUSTOM-SCRAM-SHA-256", "CUSTOM-SCRAM-SHA-1", "CUSTOM-CRAM-MD5", "CUSTOM-LOGIN", "CUSTOM-PLAIN"}
 
 // Code points on which SASLprep (RFC 4013) and PRECIS OpaqueString (RFC 8265) are both the
 // identity: the verdict must not hinge on which of the two profiles a conforming server applies.
@@ -123,6 +123,7 @@ func (p *c14) Gen(seed uint64, i int, tier string) (any, bool) {
 	}
 	stored.NonceSuffix = string(sfx)
 	stored.LoginPrompts = sim.Pick(r, LoginPromptSets)
+	stored.FirstExt = sim.Pick(r, []string{"", "", "", ",x=ext", ",x=a,y=b=c", ",z="})
 	stored.CramChallenge = fmt.Sprintf("<%d.%d@%s>", r.Intn(100000), r.Intn(1<<30), "mx.sim.example")
 	pu, pp := user, pass
 	sc.Equal = r.Chance(1, 2)
@@ -180,7 +181,7 @@ func (p *c14) Gen(seed uint64, i int, tier string) (any, bool) {
 	sc.Client = ClientCfg{AuthType: mech, User: pu, Pass: pp, TLSPolicy: "none"}
 	sc.Server.Auth = stored
 	sc.Server.Caps = []string{"8BITMIME", authCaps(allMechs...)}
-	needTLS := strings.HasSuffix(mech, "PLUS") || mech == "PLAIN" || mech == "LOGIN" || (mech == "AUTODISCOVER" && r.Chance(1, 2))
+	needTLS := strings.HasSuffix(mech, "PLUS") || mech == "PLAIN" || mech == "LOGIN" || mech == "CUSTOM-PLAIN" || mech == "CUSTOM-LOGIN" || (mech == "AUTODISCOVER" && r.Chance(1, 2))
 	if needTLS || r.Chance(1, 6) {
 		sc.Client.TLSPolicy = "mandatory"
 		sc.Server.Caps = append(sc.Server.Caps, "STARTTLS")
@@ -208,6 +209,9 @@ func (p *c14) Gen(seed uint64, i int, tier string) (any, bool) {
 	}
 	if strings.HasPrefix(mech, "CUSTOM-SCRAM") {
 		sc.Retry = "fail-then-retry"
+	} else if strings.HasPrefix(mech, "CUSTOM-") {
+		// one Auth value handed to the Client serves every connection the Client makes
+		sc.Retry = "redial"
 	} else if r.Chance(1, 5) {
 		// the same Client connects, disconnects and connects again: the second connection
 		// authenticates like the first (nothing of the first exchange or its TLS session is
